@@ -363,7 +363,7 @@ func expandName(n string) string {
 
 func runHarness(prog *ssa.Program, pkg *ssa.Package, c harnessCfg, thorough bool, fixed []ReplayVal) *harnessResult {
 	ts := NewTermStore()
-	soft := 10000
+	soft := 2500
 	softC := 60000
 	if thorough {
 		softC = 180000
